@@ -169,6 +169,33 @@ int main(int argc, char **argv) {
     rep.st.add("family_" + f.name + "_programs", r.complete ? C.total : 0);
     if (!r.complete) rep.caps.push_back("family " + f.name + ": deadline (chunks " + std::to_string(r.chunksDone) + "/" + std::to_string(r.chunksTotal) + ")");
   }
+  // ---- label runs: 2 or 3 labels (plain or PROC, every combination) naming the same place, in front of a DATA word or an instruction, at every alignment phase 0..3,
+  // every label referenced (relative or absolute, every combination) from before or from after, with a gap of 0/1/14/15 bytes between run and references
+  if (!ctx.expired()) {
+    std::vector<std::vector<Item>> progs;
+    static const char *NM[3] = {"La", "Lb", "Lc"};
+    for (int n = 2; n <= 3; n++) for (int kinds = 0; kinds < (1 << n); kinds++) for (int refk = 0; refk < (1 << n); refk++) for (int target = 0; target < 2; target++)
+      for (int refsFirst = 0; refsFirst < 2; refsFirst++) for (uint32_t phase0 : {0u, 1u, 2u, 3u}) for (uint32_t gap : {0u, 1u, 14u, 15u}) {
+        if (target == 1 && refk != 0) continue;                // absolute references need an aligned target: only in front of DATA
+        std::vector<Item> v;
+        auto refs = [&] { for (int k = 0; k < n; k++) { bool abs = refk & (1 << k); v.push_back({2, abs ? 3 : 9, 0, NM[k], !abs}); } };
+        if (refsFirst) { refs(); asmgen::addFill(v, gap); }
+        asmgen::addFill(v, phase0);
+        for (int k = 0; k < n; k++) v.push_back({(kinds & (1 << k)) ? 5 : 0, 0, 0, NM[k], false});
+        if (target == 0) v.push_back({3, 0, 0x55667788, "", false}); else v.push_back({1, 3, 7, "", false});
+        if (!refsFirst) { asmgen::addFill(v, gap); refs(); }
+        progs.push_back(v);
+      }
+    phase(ctx, "label runs: " + std::to_string(progs.size()) + " programs");
+    auto body = [&](uint64_t b, uint64_t e, const std::set<uint64_t> &skip, Stats &st, volatile uint64_t *cur) {
+      Checker ck{st};
+      for (uint64_t i = b; i < e; i++) { *cur = i; if (skip.count(i)) continue; ck.check(progs[i], i, "label-runs", (i % 3) == 0, (i % 8) == 0); st.add("label_run_programs"); }
+      unlink((ctx.scratch + "/c05." + std::to_string(getpid()) + ".bin").c_str());
+    };
+    auto r = run_chunks(ctx, "runs", progs.size(), 64, body, [&](uint64_t i) { return Obj().kv("family", "label-runs").kv("program", asmgen::describe(progs[i])).str(); }, 60);
+    rep.st.merge(r.stats);
+    if (!r.complete) rep.caps.push_back("label runs: deadline");
+  }
   // ---- distance sweep: every label-taking mnemonic, every distance in the sweep, forward and backward; absolute refs to aligned labels
   {
     std::vector<uint32_t> D;
@@ -294,7 +321,7 @@ int main(int argc, char **argv) {
   }
 #endif
   auto &c = rep.st.c;
-  rep.evaluations = c["programs"] + c["shipped_files"] + c["x_programs"] + c["process_files"];
+  rep.evaluations = c["programs"] + c["shipped_files"] + c["x_programs"] + c["process_files"];   // label-run and sweep programs are counted in "programs" by the checker
   rep.states = rep.evaluations; rep.transitions = c["refs_checked"] + c["listing_lines"] + rep.evaluations; rep.validated = c["accepted"];
   rep.nontrivial = c["accepted"] + c["x_programs_accepted"];
   rep.rule = "programs = every sequence of <=N structural items over {label def, PROC, relative ref (BR), absolute ref (LDAC), DATA} with canonical label numbering, every "
